@@ -109,7 +109,7 @@ def mutate_attr(
         # Abort if class is frozen.
         if (
             not (force or getattr(obj, "__spec_class_initializing__", False))
-            and inplace
+            and (inplace or metadata.do_not_copy)  # `do_not_copy` instances are mutated in place
             and obj.__spec_class__.frozen
         ):
             raise FrozenInstanceError(
@@ -349,6 +349,7 @@ def _setattr_mutate_safe(value: Any, attr: str, attr_value: Any, inplace: bool):
     if (
         not inplace
         and getattr(value, "__spec_class__", None)
+        and not value.__spec_class__.do_not_copy  # (these are never copied)
         and hasattr(value.__setattr__, "__raw__")
     ):
         value.__setattr__(attr, attr_value, force=True)
@@ -365,6 +366,7 @@ def delattr_mutate_safe(obj: Any, attr: str, inplace: bool):
     if (
         not inplace
         and getattr(obj, "__spec_class__", None)
+        and not obj.__spec_class__.do_not_copy  # (these are never copied)
         and hasattr(obj.__delattr__, "__raw__")
     ):
         obj.__delattr__(attr, force=True)
